@@ -55,6 +55,11 @@ class RemoteValueRaw(RemoteValue[int]):
                 raise ConversionError(
                     "Could not init DPTBinary", value=str(value)
                 ) from err
+        if self.payload_length > 253:
+            raise ConversionError(
+                "Payload too long for a single frame",
+                payload_length=self.payload_length,
+            )
         try:
             return DPTArray(value.to_bytes(length=self.payload_length, byteorder="big"))
         except (AttributeError, OverflowError) as err:
